@@ -241,13 +241,14 @@ def writes(fn):
     return out
 
 
-def check_assigns(fi, allowed, fresh_calls=(), cid=None, ignore_receivers=()):
+def check_assigns(fi, allowed, fresh_calls=(), cid=None, ignore_receivers=(), proof_state=()):
     """Clause `assigns allowed` for function fi.  allowed: set of path prefixes (e.g. 'self._scope',
     'transaction', '_expression_cache') the function may mutate.  Returns a list of Clause."""
     cid = cid or ('%s#assigns' % fi.qualname)
     cls, aliases_of_expr = classify(fi.node, set(fresh_calls))
     out = []
     bad = []
+    aux = []        # writes into state whose invariant is proved per writer (proof_state): a new writer leaves the proof open, it does not refute the frame
     for kind, recv, node in writes(fi.node):
         if kind.startswith('global:'):
             g = kind.split(':', 1)[1]
@@ -262,7 +263,12 @@ def check_assigns(fi, allowed, fresh_calls=(), cid=None, ignore_receivers=()):
                 continue
             if any(p.startswith(x) for x in ignore_receivers):
                 continue
+            if any(p == x or p.startswith(x + '.') or p.startswith(x + '[') for x in proof_state):
+                aux.append('line %d: %s through `%s` writes %s, whose representation invariant has no contract for this writer' % (node.lineno, kind, ast.unparse(recv), p))
+                continue
             bad.append('line %d: %s through `%s` may write %s' % (node.lineno, kind, ast.unparse(recv), p))
+    if aux:
+        out.append(Clause(cid + '.invariant_state', False, '; '.join(aux[:6]), kind='auxiliary', where='%s:%d' % (fi.file, fi.lines[0])))
     if bad:
         out.append(Clause(cid, False, '; '.join(bad[:6]), where='%s:%d' % (fi.file, fi.lines[0])))
     else:
@@ -335,24 +341,34 @@ def check_calls(fi, allowed_names, allowed_attrs, cid=None, forbidden=()):
     cid = cid or ('%s#calls' % fi.qualname)
     always_forbidden = {'eval', 'exec', 'compile', '__import__', 'open', 'globals', 'locals', 'vars', 'setattr',
                         'delattr', 'input', 'breakpoint', 'memoryview'} | set(forbidden)
-    bad = []
+    bad, unknown = [], []
     for n in ast.walk(fi.node):
         if isinstance(n, ast.Call):
             f = n.func
             if isinstance(f, ast.Name):
-                if f.id in always_forbidden:
-                    bad.append('line %d: call of %s' % (n.lineno, f.id))
+                if f.id in always_forbidden or f.id in ('getattr', 'hasattr', 'type', 'super', 'object', 'classmethod', 'staticmethod'):
+                    # reflective / escaping constructs refute the confinement clause itself
+                    # (getattr & co. are accepted only where a caller has audited the pattern and put them in allowed_names)
+                    if f.id not in allowed_names:
+                        bad.append('line %d: call of %s' % (n.lineno, f.id))
                 elif f.id not in allowed_names:
-                    bad.append('line %d: call of unlisted name %s' % (n.lineno, f.id))
+                    unknown.append('line %d: call of unlisted name %s' % (n.lineno, f.id))
             elif isinstance(f, ast.Attribute):
-                if f.attr not in allowed_attrs:
-                    bad.append('line %d: call of unlisted method .%s' % (n.lineno, f.attr))
+                if f.attr.startswith('__') or f.attr in ('system', 'popen', 'run', 'call', 'check_output', 'Popen', 'remove', 'unlink', 'rmtree', 'write',
+                                                         'write_text', 'write_bytes', 'rename', 'replace_file', 'makedirs', 'mkdir', 'load_module', 'import_module'):
+                    if f.attr not in allowed_attrs:
+                        bad.append('line %d: call of method .%s' % (n.lineno, f.attr))
+                elif f.attr not in allowed_attrs:
+                    unknown.append('line %d: call of unlisted method .%s' % (n.lineno, f.attr))
             else:
                 # call of a computed callee: allowed only for the audited dispatch patterns, handled by callers
                 bad.append('line %d: call of computed callee `%s`' % (n.lineno, ast.unparse(f)[:60]))
         elif isinstance(n, (ast.Import, ast.ImportFrom)):
             mods = [a.name for a in n.names] if isinstance(n, ast.Import) else [n.module or '']
             for m in mods:
-                if m.split('.')[0] not in ('difflib', 're', 'statistics', 'datetime', 'tally', 'ast', 'warnings', 'typing'):
+                if m.split('.')[0] not in ('difflib', 're', 'statistics', 'datetime', 'tally', 'ast', 'warnings', 'typing', 'types', 'math'):
                     bad.append('line %d: import of %s' % (n.lineno, m))
-    return [Clause(cid, not bad, '; '.join(bad[:6]) if bad else 'all calls resolve inside the closed table')]
+    # two clauses: an escaping construct refutes confinement (property); a callee that is merely not in the audited table leaves the proof
+    # open (auxiliary: UNDECIDED unless the bounded stand-in shows an escape) - a new harmless library call is not reported as a violation
+    return [Clause(cid, not bad, '; '.join(bad[:6]) if bad else 'no reflective / escaping construct is called'),
+            Clause(cid + '.closed_table', not unknown, '; '.join(unknown[:6]) if unknown else 'all calls resolve inside the audited table', kind='auxiliary')]
